@@ -103,25 +103,41 @@ fn get_players<Client: QuakeClient>(bufferer: &mut Buffer<LittleEndian>) -> GDRe
     Ok(players)
 }
 
-/// Split a player line into its fields: on every space that is not inside double quotes
-/// (a quoted name can contain spaces).
+/// Split a player line into its fields. A field that starts with a double quote ends at the
+/// first double quote that is followed by a space or by the end of the line (a quoted name can
+/// contain spaces), any other field ends at the first space.
 fn split_player_line(line: &str) -> Vec<&str> {
     let mut fields = Vec::new();
-    let mut field_start = 0;
-    let mut in_quotes = false;
-    for (position, character) in line.char_indices() {
-        match character {
-            '"' => in_quotes = !in_quotes,
-            ' ' if !in_quotes => {
-                fields.push(&line[field_start .. position]);
-                field_start = position + 1;
+    let mut rest = line;
+    loop {
+        let closing_quote = match rest.starts_with('"') {
+            false => None,
+            true => {
+                rest.char_indices()
+                    .skip(1)
+                    .find(|&(position, character)| {
+                        character == '"' && matches!(rest[position + 1 ..].chars().next(), None | Some(' '))
+                    })
+                    .map(|(position, _)| position + 1)
             }
-            _ => {}
+        };
+
+        let field_end = match closing_quote {
+            Some(end) => Some(end).filter(|end| *end < rest.len()),
+            None => rest.find(' '),
+        };
+
+        match field_end {
+            Some(end) => {
+                fields.push(&rest[.. end]);
+                rest = &rest[end + 1 ..];
+            }
+            None => {
+                fields.push(rest);
+                return fields;
+            }
         }
     }
-    fields.push(&line[field_start ..]);
-
-    fields
 }
 
 pub fn client_query<Client: QuakeClient>(
